@@ -13,6 +13,10 @@ pub enum GitOp {
     Edit { path: String },
     /// as Edit, but the file keeps an old modification time (cp -p, rsync -t, tar extraction, mv of an older file)
     EditOld { path: String },
+    /// the file is overwritten in place with new content of exactly the same size, and its modification time is put
+    /// back to what it was (touch -r, cp -p, rsync -t, an editor that preserves timestamps): only the bytes, the inode
+    /// change time and the checksum tell
+    EditSameStat { path: String },
     Delete { path: String },
     /// the file becomes empty (0 bytes): a content of its own, not a deletion
     Empty { path: String },
@@ -96,6 +100,17 @@ impl RGit {
         match op {
             GitOp::Create { path } | GitOp::Edit { path } | GitOp::EditOld { path } | GitOp::WriteIgnored { path } => {
                 let c = self.fresh();
+                self.wt.insert(path.clone(), c);
+            }
+            GitOp::EditSameStat { path } => {
+                self.counter += 1;
+                let c = match self.wt.get(path) {
+                    Some(old) if !old.starts_with("symlink ->") && old.len() >= 12 => {
+                        let tag = format!("k{}", self.counter);
+                        format!("{}{}\n", tag, "x".repeat(old.len() - tag.len() - 1))
+                    }
+                    _ => format!("content {}\n", self.counter),
+                };
                 self.wt.insert(path.clone(), c);
             }
             GitOp::Delete { path } => {
@@ -456,6 +471,19 @@ pub fn exec_repo_op(w: &mut World, op: &GitOp, model_after: &RGit) -> Result<(),
             }
             Ok(())
         }
+        GitOp::EditSameStat { path } => {
+            let c = model_after.wt.get(path).ok_or("model lost path")?;
+            let p = w.root.join(path);
+            let before = std::fs::symlink_metadata(&p).ok().filter(|m| m.file_type().is_file());
+            write_managed(w, path, c)?;
+            if let Some(m) = before {
+                use std::os::unix::fs::MetadataExt;
+                if m.len() == std::fs::metadata(&p).map(|x| x.len()).unwrap_or(0) {
+                    set_mtime_ns(&p, m.mtime(), m.mtime_nsec())?;
+                }
+            }
+            Ok(())
+        }
         GitOp::Delete { path } => std::fs::remove_file(w.root.join(path)).map_err(|e| format!("rm {}: {}", path, e)),
         GitOp::Crlf { path } => match model_after.wt.get(path) {
             Some(c) => write_managed(w, path, c),
@@ -520,7 +548,7 @@ pub fn exec_repo_op(w: &mut World, op: &GitOp, model_after: &RGit) -> Result<(),
             Ok(())
         }
         GitOp::Checkout { path, commit } => {
-            let sha = w.git(&["rev-list", "--reverse", "HEAD"])?;
+            let sha = commit_order(w)?;
             let shas: Vec<&str> = sha.lines().collect();
             let c = (*commit).min(shas.len().saturating_sub(1));
             // only when that commit has the path (the model does nothing otherwise)
@@ -530,21 +558,36 @@ pub fn exec_repo_op(w: &mut World, op: &GitOp, model_after: &RGit) -> Result<(),
             }
             Ok(())
         }
-        GitOp::Commit { all } => {
-            if *all {
-                w.git(&["commit", "-q", "--allow-empty", "-a", "-m", "c"]).map(|_| ())
-            } else {
-                w.git(&["commit", "-q", "--allow-empty", "-m", "c"]).map(|_| ())
+        GitOp::Commit { all } | GitOp::Amend { all } => {
+            // commit #n of the model is the n-th commit ever made, whether or not it is still an ancestor of HEAD
+            let mut order = commit_order(w)?;
+            let mut args = vec!["commit", "-q", "--allow-empty"];
+            if matches!(op, GitOp::Amend { .. }) {
+                args.push("--amend");
             }
-        }
-        GitOp::Amend { all } => {
             if *all {
-                w.git(&["commit", "-q", "--amend", "--allow-empty", "-a", "-m", "amended"]).map(|_| ())
-            } else {
-                w.git(&["commit", "-q", "--amend", "--allow-empty", "-m", "amended"]).map(|_| ())
+                args.push("-a");
             }
+            args.extend_from_slice(&["-m", "c"]);
+            w.git(&args)?;
+            if !order.is_empty() && !order.ends_with('\n') {
+                order.push('\n');
+            }
+            order.push_str(w.git(&["rev-parse", "HEAD"])?.trim());
+            order.push('\n');
+            let _ = std::fs::create_dir_all(w.root.join(".ctl"));
+            std::fs::write(w.root.join(".ctl/commit-order"), order).map_err(|e| e.to_string())
         }
         _ => Ok(()),
+    }
+}
+
+/// The commits of the world in the order they were made (one id per line): the recorded list once a commit or amend
+/// went through `exec_repo_op`, the ancestry of HEAD before that.
+fn commit_order(w: &mut World) -> Result<String, String> {
+    match std::fs::read_to_string(w.root.join(".ctl/commit-order")) {
+        Ok(s) => Ok(s),
+        Err(_) => w.git(&["rev-list", "--reverse", "HEAD"]),
     }
 }
 
@@ -567,6 +610,18 @@ pub fn write_managed(w: &World, rel: &str, content: &str) -> Result<(), String> 
 
 pub fn set_old_mtime(p: &std::path::Path) -> Result<(), String> {
     set_mtime(p, 1_000_000_000)
+}
+
+pub fn set_mtime_ns(p: &std::path::Path, secs: i64, nsec: i64) -> Result<(), String> {
+    use std::os::unix::ffi::OsStrExt;
+    let c = std::ffi::CString::new(p.as_os_str().as_bytes()).map_err(|e| e.to_string())?;
+    let t = libc::timespec { tv_sec: secs, tv_nsec: nsec };
+    let times = [t, t];
+    let r = unsafe { libc::utimensat(libc::AT_FDCWD, c.as_ptr(), times.as_ptr(), 0) };
+    if r != 0 {
+        return Err(format!("utimensat {}", p.display()));
+    }
+    Ok(())
 }
 
 pub fn set_mtime(p: &std::path::Path, secs: i64) -> Result<(), String> {
